@@ -15,7 +15,7 @@ SPEC = {
     "trusted_base": [],
 }
 
-KEEP = ("B", "EQ", "DEC")
+KEEP = ("B", "EQ", "DEC", "OBS", "B2")
 
 
 def check_pred(ctx, lines, impl):
